@@ -181,6 +181,8 @@ def run_case(case, ctx):
                 out.append(viol('C11 CA details reported for a host key that is not a certificate', 'alg=%s reported=%r key list=%r' % (alg, {k: r[k] for k in ('size', 'ca_size', 'ca_type')}, advertised)))
             if any('CA key' in t for _, t in r['notes']):
                 out.append(viol('C11 CA note on a host key that is not a certificate', 'alg=%s notes=%r' % (alg, r['notes'])))
+            elif size_notes(alg, r['notes']) and alg in sent:
+                out.append(viol('C11 size note on a key type of fixed size', 'alg=%s notes=%r' % (alg, r['notes'])))
             continue
         if facts is None:
             if r['size'] is not None or r['ca_size'] is not None:
